@@ -398,13 +398,8 @@ def do_record(ctx, backend, stem, op, header=None, use_default_header=False):
         seams.open_fault = None
         if log is not None:
             log.fail_at = None
-        # an input handle may be left open by an aborted from_data recording
-        h = getattr(backend, "input_file_handler", None)
-        if status != "ok" and h is not None:
-            try:
-                h.close()
-            except Exception:
-                pass
+        # NB: an input handle left open by an aborted from_data recording is deliberately NOT closed here: what the
+        # library does with it on the next recording is part of what is judged
     if fault and planned_unfired and status == "ok":
         ctx.hit("fault_planned_but_not_reached")
     return status, exc
